@@ -11,7 +11,8 @@ from ..pse import truth, SymInt
 from .. import pse
 
 BEHAVIOURS = ["conn-error", "timeout-exc", "http-500", "json-invalid", "json-null", "json-list", "json-no-tag",
-              "tag:v99.0.0", "tag:99.0.0", "tag:0.0.1", "tag:99.0.0rc1", "tag:99.0.0.dev1", "tag:garbage", "tag:"]
+              "tag:v99.0.0", "tag:99.0.0", "tag:0.0.1", "tag:99.0.0rc1", "tag:99.0.0.dev1", "tag:garbage", "tag:",
+              "tag:release-99.1", "tag:v1.1.2026092714223300000-nightly", "tag:" + "9" * 400, "tag:1." * 60 + "x"]
 HANG = 10 ** 9
 LATENCIES = [0, 300, 900, 2500, 4000, 60000]
 
@@ -89,6 +90,7 @@ def model(sym):
         prev, st["ctx"] = st["ctx"], "checker"
         # the command switches verbose logging on when it starts; a checker thread that finished before that saw it off
         prev_v, LG.verbose_logging = LG.verbose_logging, bool(verbose_cmd and (hang or L > 0))
+        t_cpu = time.process_time()
         try:
             try:
                 U.Updater.run(spy)
@@ -97,6 +99,11 @@ def model(sym):
         finally:
             st["ctx"] = prev
             LG.verbose_logging = prev_v
+            # processor time the thread body burns (beyond the modelled network wait) is taken from the one interpreter lock the
+            # command needs as well: in the worst case (C code that does not release it) the command stalls for that long
+            burnt = int((time.process_time() - t_cpu) * 1000)
+            if burnt > 400:
+                st["delay"] = st["delay"] + burnt
 
     class Spy(U.Updater):
         def start(self):
